@@ -121,6 +121,20 @@ def collision_cases(rng, tier, neuter_fn=None):
             yield "ckd %s %s -" % (spec, impl.lst(str, path)), "fp-collision-path"
 
 
+def projection_cases(rng, tier, neuter_fn=None):
+    """sibling parents whose SCALARS agree under a projection (hash(int), low/high bits, see common.projection_siblings),
+    same chain code and indexes, used back to back in one process"""
+    for ka, kb, why in common.projection_siblings(rng, 6 if tier == "quick" else 60):
+        chain = hx(bytes(rng.getrandbits(8) for _ in range(32)))
+        t = rng.choice("01")
+        for i in [0, 7] + ([] if neuter_fn else [2 ** 31 + 1]):
+            for k in (ka, kb, ka):
+                spec = "P:%s:%s:0:0:%s:none" % (hx(k.to_bytes(32, "big")), chain, t)
+                if neuter_fn:
+                    spec = neuter_fn(spec, k)
+                yield "ckd %s %d -" % (spec, i), "projection-siblings-" + why
+
+
 def nontrivial(line, out):
     return True
 
@@ -202,3 +216,4 @@ def literal_ops(lit):
 def cases(rng, tier):
     yield from _cases_main(rng, tier)
     yield from collision_cases(rng, tier)
+    yield from projection_cases(rng, tier)
